@@ -465,10 +465,13 @@ func runC20(r *core.Run) {
 					}
 				}
 				laysF := append(append([]string{}, lays...), "F")
-				for _, op := range []string{"Add", "Sub", "Mul", "Div", "FMA"} {
+				for _, op := range []string{"Add", "Sub", "Mul", "Div", "FMA", "FMAScalar"} {
 					dmodes := []string{"reuse=a", "reuse=b", "reuse=av", "reuse=bv", "mismatch", "reuse:rs", "incr:rs", "reuse:F", "incr:F"}
 					if op == "FMA" {
 						dmodes = []string{"fma:xrs", "fma:yrs", "fma:F", "fma"}
+					}
+					if op == "FMAScalar" {
+						dmodes = []string{"fma:yrs", "fma:F", "fma"}
 					}
 					for _, mode := range append(dmodes, "safe", "unsafe", "reuse", "incr") {
 						for _, la := range laysF {
@@ -476,8 +479,11 @@ func runC20(r *core.Run) {
 								if (mode == "safe" || mode == "unsafe" || mode == "reuse" || mode == "incr" || mode == "fma") && la != "F" && lb != "F" {
 									continue // judged against the reference model above
 								}
-								if op == "FMA" && (mode == "safe" || mode == "unsafe" || mode == "reuse" || mode == "incr") {
+								if (op == "FMA" || op == "FMAScalar") && (mode == "safe" || mode == "unsafe" || mode == "reuse" || mode == "incr") {
 									continue
+								}
+								if op == "FMAScalar" && lb != "C" {
+									continue // there is no second tensor operand
 								}
 								es, d, shape, op, mode, la, lb := es, d, shape, op, mode, la, lb
 								id := fmt.Sprintf("C20|arith|%s|%s|%s|%s|%s|a=%s|b=%s", es.name, op, d.Name, shapeStr(shape), mode, la, lb)
@@ -486,13 +492,13 @@ func runC20(r *core.Run) {
 								}
 								r.Case(id, n >= 2, func() *core.Fail {
 									tensor.VerifResetPools()
-									ob, ok := c20Arith(d, es.e, op, shape, la, lb, mode, av, bv, dvv, nil)
+									ob, ok := c20Arith(d, es.e, op, shape, la, lb, mode, av, bv, dvv, d.Code(2))
 									if !ok {
 										r.Dim("skipped", "layout")
 										return nil
 									}
 									tensor.VerifResetPools()
-									std, _ := c20Arith(d, tensor.StdEng{}, op, shape, la, lb, mode, av, bv, dvv, nil)
+									std, _ := c20Arith(d, tensor.StdEng{}, op, shape, la, lb, mode, av, bv, dvv, d.Code(2))
 									r.Op(2)
 									r.Outcome("arith-diff:" + es.name + ":" + ob.class + "/" + std.class)
 									if (ob.class == "ok") != (std.class == "ok") {
